@@ -78,7 +78,7 @@ theorem C03_duplicate_write_idempotent (old d : List UInt8) (o : Nat) :
 
 /-- an EOF that overtakes the Metadata keeps its checksum and size for the final verification -/
 theorem C03_eof_before_metadata_keeps_checksum (env : Env) (d d' : DestSt) (cks : List UInt8) (size : Nat)
-    (h : handleEofWithoutPreviousMetadata env cks size d = .ok () d') :
+    (h : handleEofWithoutPreviousMetadata env ccNoError cks size d = .ok () d') :
     d'.p.crc32 = cks ∧ d'.p.fileSizeEof = some size ∧ d'.p.metadataMissing = true ∧
     d'.step = .SENDING_EOF_ACK_PDU ∧ (0 < size → d'.p.trk = [(0, size)]) := by
   unfold handleEofWithoutPreviousMetadata at h
